@@ -6,9 +6,10 @@
 // stdin:  JSON [{"iface":bool,"name":hex,"file":hex,"pkgname":hex,"pkgpath":hex,
 //                "template":hex,"config":hex,"cwd":"<existing directory>",
 //                "dir":hex,"filename":hex,"pkg":hex,"structname":hex,"schema":hex}, ...]
-// stdout: JSON [{"k":"ok","v":[dir,filename,pkgname,structname,schema] (hex),"ms":n}
-//               | {"k":"infinite"} | {"k":"parse"} | {"k":"exec"} | {"k":"other","m":..}
-//               | {"k":"panic","m":..}, ...]     each with "ms" (wall) and "cpu_ms"
+// stdout: one JSON object per case and line, in order, flushed after every call:
+//         {"k":"ok","v":[dir,filename,pkgname,structname,schema] (hex)}
+//         | {"k":"infinite"} | {"k":"parse"} | {"k":"exec"} | {"k":"other","m":..} | {"k":"panic","m":..}
+//         each with "ms" (wall) and "cpu_ms"
 package main
 
 import (
@@ -122,11 +123,12 @@ func main() {
 		fmt.Fprintln(os.Stderr, "bad input:", err)
 		os.Exit(2)
 	}
-	outs := make([]Out, 0, len(cases))
+	// one result per line, written as soon as the call returns: the harness sees which
+	// call does not return
+	enc := json.NewEncoder(os.Stdout)
 	for _, c := range cases {
-		outs = append(outs, runCase(c))
-	}
-	if err := json.NewEncoder(os.Stdout).Encode(outs); err != nil {
-		os.Exit(2)
+		if err := enc.Encode(runCase(c)); err != nil {
+			os.Exit(2)
+		}
 	}
 }
